@@ -124,7 +124,7 @@ def run_sql(sql, tabs, dialect="sqlite"):
     try:
         tables = {t: (list(cols.keys()), [list(r) for r in zip(*cols.values())] if cols and len(next(iter(cols.values()))) else [])
                   for t, cols in tabs.items()}
-        r = sqlsym.execute(sql, tables, dialect=dialect, udfs=udf.sqlite_udfs() if dialect == "sqlite" else udf.sqlite_udfs())
+        r = sqlsym.execute(sql, tables, dialect=dialect, udfs=udf.sqlite_udfs() if dialect == "sqlite" else {})
         return SideResult(r.cols, r.rows, ordered=r.ordered)
     except Unmodelled as u:
         return SideResult(unmodelled=str(u))
@@ -284,7 +284,7 @@ def concrete_tables_match(cols_a, rows_a, cols_b, rows_b, ordered=False, wild_a=
     return all(try_row(i, set()) for i in range(n))
 
 
-def validate_side(pred, real, real_exc, side_exc, ordered=False):
+def validate_side(pred, real, real_exc, side_exc, ordered=False, col_order=False):
     """does the real engine do what the model predicted under this witness?  -> (ok, detail)"""
     if side_exc is not None or pred is None:
         if real_exc is not None:
@@ -294,4 +294,6 @@ def validate_side(pred, real, real_exc, side_exc, ordered=False):
         return False, f"real engine raises ({real_exc}) but the model returns"
     cols, rows, wild = pred
     ok = concrete_tables_match(cols, rows, real[0], real[1], ordered=ordered, wild_a=wild)
+    if ok and col_order and list(cols) != list(real[0]):
+        ok = False
     return ok, ("match" if ok else f"model predicted {cols}{rows} real {real[0]}{real[1]}")
